@@ -177,6 +177,16 @@ MUTANTS += [
          old="np.where(0 <= z2.real, 1, -1))", new="np.where(0 < z2.real, 1, -1))"),
     dict(id='c12-rsub', props=['C12'], file=MC,
          old="        return -self.__sub__(other)", new="        return self.__sub__(other)"),
+    dict(id='c12-undo-intpow-ring', props=['C01', 'C02', 'C12'], file=MC,
+         old='            return self._pow_integer(int(other))\n', new='            pass\n'),
+    dict(id='c12-inverse-unscaled', props=['C12'], file=MC,
+         old='        scale = np.maximum(np.abs(self.z1), np.abs(self.z2))  # the squares must not overflow',
+         new='        scale = 1.0'),
+    dict(id='c12-inverse-sign', props=['C12', 'C01'], file=MC,
+         old='        return Bicomplex(z1 / mod2 / scale, -z2 / mod2 / scale)', new='        return Bicomplex(z1 / mod2 / scale, z2 / mod2 / scale)'),
+    dict(id='c12-powint-skips-last-square', props=['C12', 'C01'], file=MC,
+         old='            if n & 1:\n                out = out * base\n            n >>= 1\n            if n > 0:\n                base = base * base',
+         new='            if n & 1:\n                out = out * base\n            n >>= 1\n            if n > 1:\n                base = base * base'),
     dict(id='c12-undo-f5-expm1', props=['C12', 'C01'], file=MC,
          old="        return Bicomplex(expz1 * np.cos(self.z2) - 2 * np.sin(0.5 * self.z2) ** 2,\n                         (expz1 + 1) * np.sin(self.z2))",
          new="        return Bicomplex(expz1 * np.cos(self.z2), expz1 * np.sin(self.z2))"),
